@@ -43,7 +43,10 @@ def deliver(w, pred):
 
 def prepare():
     """W1 RUNNING with CompleteWorkflow(W1) pending; W2 stored with StartWorkflow(W2) pending."""
-    w = W.World(monitors=False)
+    # same schema (monitor tables and triggers included) as the Worlds of the E1 jobs that share this process's
+    # in-memory connection: a database image of another schema lineage deserialised into that connection leaves
+    # sqlite's cached prepared statements pointing at the wrong pages (segfault in a later job of the same process)
+    w = W.World(monitors=True)
     w.create_schema()
     c = w.conn
     for t in ("queue_messages", "queue_messages_dlq", "processed_messages", "task_executions", "stage_executions",
